@@ -366,7 +366,8 @@ def check_C18(pid, tier, seed, chk):
     # the tie between the abort-semantics model (the subject of the C18 theorems) and the code: every post-panic state of a
     # plain LRU recorded by faultscan must be one of the states the model predicts for an abort inside that operation
     inj = [l for l in txt.splitlines() if l.startswith("INJ ")]
-    abort_stats = dict(records=len(inj), ok=0, unmodelled=0, unexpected=0)
+    abort_stats = dict(records=len(inj), ok=0, unmodelled=0, unexpected=0, unexpected_drops=0,
+                       records_with_drops=sum(1 for l in inj if "| dr=[" in l and "| dr=[]" not in l))
     acheck = os.path.join(chk.LEAN, ".lake", "build", "bin", "abortcheck")
     unexpected = []
     if inj:
@@ -379,7 +380,7 @@ def check_C18(pid, tier, seed, chk):
                 elif r.startswith("skip"):
                     abort_stats["unmodelled"] += 1
                 else:
-                    abort_stats["unexpected"] += 1
+                    abort_stats["unexpected_drops" if r.startswith("UNEXPECTED-DROPS") else "unexpected"] += 1
                     unexpected.append(r)
         else:
             proof_break.append("abortcheck does not build")
@@ -404,8 +405,11 @@ def check_C18(pid, tier, seed, chk):
     if unexpected and violations == 0:
         r = unexpected[0]
         head = r.split("INJ ", 1)[-1].split(" | ")[0]
-        what = ["model-disagreement: the state the real code is left in after this injected panic is none of the states the abort-semantics "
-                "model (lean/Caches/Model/Abort.lean) predicts for that operation; the memory-safety audit itself passed",
+        what = ["model-disagreement: the state the real code is left in after this injected panic" +
+                (" is one the abort-semantics model predicts, but the keys/values dropped by the unwind (dr=) are not the ones "
+                 "lean/Caches/Model/AbortOwn.lean predicts for it" if r.startswith("UNEXPECTED-DROPS") else
+                 " is none of the states the abort-semantics model (lean/Caches/Model/Abort.lean) predicts for that operation") +
+                "; the memory-safety audit itself passed",
                 "correspondence that no longer checks: abort model vs RawLRU, " + r[:600],
                 "theorems of C18 are no longer tied to this code"]
         path = chk.write_replay(pid, seed, tier, "model-disagreement", what, script_of.get(head, [head, "end"]), "", "abort%s" % (head.split()[1] if len(head.split()) > 1 else "x"))
@@ -428,8 +432,9 @@ def check_C18(pid, tier, seed, chk):
                cases=done_cases, hangs_skipped=len(hangs), user_calls=total_calls, injections_fired=fired, sites=sites, crashed_cases=len(crashed),
                notes=notes + proof_break, exhaustive=False)
     chk.write_evidence(pid, tier, seed, time.time() - t0, cov,
-                       ["the abort-semantics model covers RawLRU (put, get, peek*, contains, *_or_put, remove, remove_lru, purge, resize, clone) and is compared "
-                        "with the real post-panic state on every injection into a plain LRU (abort_model_records); composite caches are covered by the "
+                       ["the abort-semantics model covers RawLRU (put, get, peek*, contains, *_or_put, remove, remove_lru, purge, resize, clone; nodes AND the "
+                        "ownership of keys/values) and is compared with the real post-panic state and the real drop log of the aborted call on every "
+                        "injection into a plain LRU (abort_model_records); composite caches are covered by the "
                         "fault-injection runs and by the ownership contracts of the primitives (DESIGN.md section 6/C18, 11)"], violations)
     for l in out_lines:
         print(l)
